@@ -311,3 +311,7 @@ def run(rep, facts, tier):
                     okv = bool([x for x in term_leaves(v) if x[0] == 'call' and (x[1].endswith('len_serialized') or x[1].endswith('::len'))]) or v[0] in ('const', 'phi')
                     rep.check(okv, 'R14.1', 'security:%s/header@%d' % (b.key, n2), 'content_length from a length function or literal', 'content_length = %s' % term_str(v)[:80], b.where(bb, si))
         rep.floor('R14.1', n2, 14, 'SubmessageHeader constructions (security features)')
+
+    # ------------------------------------------------------------ R14.5 (shared with C01 R01.7)
+    from rules import numberset
+    numberset.run_rule(rep, fx, 'R14.5')
